@@ -24,7 +24,8 @@ RULE = (
     "all pairs of layouts (axes_reversed x axes_increase vectors; order drawn at random since it does not enter) of "
     "the same geometry for dims up to 3x2x2 (quick: a deterministic sample of the product) / 4x3x2 (thorough: full "
     "product), cell and point data, plus cross-class pairs (Uniform/Rectilinear/Esri of the same geometry) and "
-    "incompatible pairs (different dims, shifted origin, other location, other crs, length-1 vs length-2 axis); data "
+    "incompatible pairs (different dims, shifted origin, other location, other crs, length-1 vs length-2 axis), "
+    "uniform grids whose single-node axes declare a different spacing (same locations); data "
     "in the grid's data shape, with a leading time axis of length 1 or 2, in canonical shape or of a wrong shape, "
     "plain and masked; each pair through the grid methods, through a real Output >> Input link, and as a script on "
     "the link (static output and input read 2-4 times with and without a time; non-static link with 2-3 "
@@ -48,6 +49,14 @@ CASE_TIMEOUT = 60
 fr = G.fr
 ORIG = [Fraction(3, 4), Fraction(-2), Fraction(1)]
 HALF = Fraction(1, 2)
+WIDE = Fraction(5, 2)
+
+
+def vary_spacing(d, rng, p=0.5):
+    """a uniform grid with a single-node axis may declare any spacing there"""
+    if d["cls"] == "uniform" and d["geom"] == 0 and 1 in d["dims"] and rng.random() < p:
+        d["geom"] = 3
+    return d
 
 
 # ---------------------------------------------------------------------------------------------
@@ -77,7 +86,10 @@ def spec_case(d):
     dims = d["dims"]
     if d["cls"] == "uniform":
         o = [ORIG[k] + (Fraction(1, 4) if (d["geom"] == 2 and k == 0) else 0) for k in range(len(dims))]
-        return {"cls": "uniform", "dims": dims, "spacing": [fr(HALF)] * len(dims), "origin": [fr(x) for x in o],
+        # geometry 3 = geometry 0 declared with another spacing on the single-node axes (where a spacing
+        # affects no coordinate): the same data locations
+        sp = [WIDE if (d["geom"] == 3 and n == 1) else HALF for n in dims]
+        return {"cls": "uniform", "dims": dims, "spacing": [fr(x) for x in sp], "origin": [fr(x) for x in o],
                 "inc": d["inc"], "order": d["order"], "rev": d["rev"], "loc": d["loc"]}
     if d["cls"] == "rect":
         axes = geom_axes(d["geom"], dims)
@@ -184,7 +196,7 @@ def make_gridseq(rng):
         return gdesc(cls, 0, dd, rng.choice("CF"), rng.random() < 0.5, [rng.random() < 0.5 for _ in range(d)],
                      rng.choice(["CELLS", "POINTS"]))
 
-    grids = [one(k) for k in range(rng.choice([2, 2, 3]))]
+    grids = [vary_spacing(one(k), rng, 0.4) for k in range(rng.choice([2, 2, 3]))]
     nobj = len(grids)
     ops = []
     pair = (0, 1)
@@ -269,6 +281,7 @@ def _cross(rng, kind):
         hdims = hdims + [1]
         ih = ih + [True]
     h = gdesc(cls_h, hgeom, hdims, oh, rh, ih, hloc, hcrs)
+    g, h = vary_spacing(g, rng, 0.3), vary_spacing(h, rng, 0.3)
     return make_case(kind, g, h, _mode(rng, kind), rng)
 
 
@@ -301,6 +314,17 @@ CORPUS_SPEC = [
      gdesc("rect", 0, (1, 1), "C", True, [True, True], "POINTS"), "data"),
     ("methods", gdesc("rect", 0, (1, 1, 1), "F", True, [True, True, True], "POINTS"),
      gdesc("uniform", 0, (1, 1, 1), "F", False, [True, True, True], "CELLS"), "time1"),
+    # seeded defect C15_e: uniform grids with a single-node axis that declare different spacings there
+    # describe the same locations (3-D layer, 2-D transect; cells and points)
+    ("methods", gdesc("uniform", 0, (4, 3, 1), "F", False, [True, True, True], "CELLS"),
+     gdesc("uniform", 3, (4, 3, 1), "F", False, [True, True, True], "CELLS"), "data"),
+    ("link", gdesc("uniform", 0, (4, 3, 1), "F", False, [True, True, True], "CELLS"),
+     gdesc("uniform", 3, (4, 3, 1), "F", True, [True, False, True], "CELLS"), "data"),
+    ("link", gdesc("uniform", 3, (4, 1), "C", True, [False, True], "POINTS"),
+     gdesc("uniform", 0, (4, 1), "F", False, [True, True], "POINTS"), "time1"),
+    ("methods", gdesc("uniform", 3, (1, 3, 2), "F", False, [True, True, False], "POINTS"),
+     gdesc("uniform", 0, (1, 3, 2), "F", False, [True, True, False], "POINTS"), "time1"),
+    ("link", gdesc("uniform", 3, (1,), "F", False, [True], "CELLS"), gdesc("uniform", 0, (1,), "F", False, [True], "CELLS"), "data"),
     # other crs, otherwise identical
     ("methods", _U(False, [True, True]), gdesc("uniform", 0, (4, 3), "F", True, [True, False], "CELLS", 1), "data"),
     ("link", _U(False, [True, True]), gdesc("uniform", 0, (4, 3), "F", True, [True, False], "CELLS", 1), "data"),
@@ -314,6 +338,8 @@ CORPUS_SEQ = [
     (_U(False, [True, True], dims=(4, 4)), _U(True, [True, True], dims=(4, 4)), True, "data", [3]),
     (_E, _U(False, [True, True], dims=(5, 4)), True, "time1", [3]),
     (_U(True, [False, True], "POINTS", dims=(3, 2)), _U(False, [True, False], "POINTS", dims=(3, 2)), True, "data", [2]),
+    (gdesc("uniform", 0, (4, 3, 1), "F", False, [True, True, True], "CELLS"),
+     gdesc("uniform", 3, (4, 3, 1), "F", True, [True, False, True], "CELLS"), True, "data", [2]),
     # repeated reads on a non-static link
     (_U(False, [True, True], dims=(5, 4)), _U(True, [True, False], dims=(5, 4)), False, "data", [2, 1, 3]),
     (_E, _U(False, [False, True], dims=(5, 4)), False, "time1", [1, 2]),
@@ -336,6 +362,11 @@ CORPUS_GRIDSEQ = [
                   ["copy", 1, True], ["set", 2, "POINTS"], ["compat", 2, 0], ["compat", 0, 2]]),
     ([_R3, gdesc("rect", 1, (3, 2, 2), "F", False, [True, True, True], "POINTS")],
      [["trans", 0, 1], ["set", 1, "CELLS"], ["trans", 0, 1], ["compat", 0, 1], ["set", 0, "CELLS"], ["trans", 0, 1]]),
+    ([gdesc("uniform", 0, (4, 3, 1), "F", False, [True, True, True], "CELLS"),
+      gdesc("uniform", 3, (4, 3, 1), "C", True, [True, True, True], "CELLS"),
+      gdesc("rect", 0, (4, 3, 1), "F", False, [True, True, True], "CELLS")],
+     [["compat", 0, 1], ["compat", 1, 0], ["eq", 0, 1], ["trans", 0, 1], ["compat", 1, 2], ["set", 0, "POINTS"],
+      ["set", 1, "POINTS"], ["compat", 0, 1], ["trans", 1, 0]]),
     ([gdesc("esri", 0, (4, 3), "C", True, [True, False], "CELLS"), _GC],
      [["compat", 0, 1], ["set", 0, "POINTS"], ["compat", 0, 1], ["set", 1, "POINTS"], ["compat", 0, 1], ["compat", 1, 0],
       ["trans", 1, 0], ["compat", 0, 5]]),
@@ -360,6 +391,7 @@ def generate(rng, tier):
             geom = 0 if cls == "uniform" else rng.choice([0, 1])
             g = gdesc(cls, geom, dims, rng.choice("CF"), rg, ig, loc)
             h = gdesc(rng.choice(["uniform", "rect"]) if geom == 0 else "rect", geom, dims, rng.choice("CF"), rh, ih, loc)
+            g, h = vary_spacing(g, rng, 0.4), vary_spacing(h, rng, 0.4)
             cases.append(make_case(kind, g, h, _mode(rng, kind), rng))
             if kind == "link":
                 # the same pair again as a script: static link read 2-4 times / several publications read repeatedly
